@@ -572,11 +572,11 @@ def main(tier):
         rng_n = (2, 3, 4)
         sym_n = (2, 3)
     else:
-        rng_n = (2, 3, 4, 5)
+        rng_n = (2, 3, 4, 5, 6)
         sym_n = (2, 3, 4)
     shapes = list(itertools.product(rng_n, repeat=3))
     if tier != 'quick':
-        shapes += [(6, 2, 3), (2, 6, 3), (3, 2, 6)]
+        shapes += [(8, 2, 3), (2, 8, 3), (3, 2, 8), (7, 7, 2)]
     cases_op = [(s, 'triaxial') for s in shapes]
     # the three aliasing cases: same kernel with arrays identified
     alias_shapes = [(3, 3, 3), (2, 3, 4)] if tier == 'quick' else \
@@ -658,7 +658,8 @@ def main(tier):
         "scipy.constants.epsilon_0, mu_0 -> symbolic constants",
     ]
     run.outside = [
-        "shapes with more than 5 (quick: 4) cells per direction",
+        "shapes with more than 6 (quick: 4) cells per direction (plus a few "
+        "8-cell extremes)",
         "floating-point rounding / overflow", "numba code generation "
         "(validated numerically only)"]
     run.explanation = (
